@@ -250,7 +250,11 @@ TRUSTED = vplib.BASE_TRUSTED + [
 
 def run_pair(cases):
     text = "\n".join(cases) + "\n"
-    rc, impl = vplib.run_lines([vplib.harness_bin("cmp")], text, timeout=1200)
+    exe = vplib.private_copy(vplib.harness_bin("cmp"))   # a concurrent rebuild cannot replace it mid-run
+    try:
+        rc, impl = vplib.run_lines([exe], text, timeout=1200)
+    finally:
+        os.unlink(exe)
     if rc != 0 or len(impl) != len(cases):
         return None, None, "cmp harness rc=%s lines=%d/%d" % (rc, len(impl), len(cases))
     if not os.path.exists(vplib.OCAML_BUILD + "/cmp_driver"):
@@ -331,7 +335,7 @@ def run(tier, seed):
     v.coverage.update(vplib.proof_coverage(
         pr, "make -C coq Properties/C12.vo && coqc Properties/C12.v (Print Assumptions) && tools/props/c12.py correspondence", TRUSTED))
     v.coverage["tables_regenerated"] = sy.get("changed", [])
-    ok, out = vplib.cargo_build("debug")
+    ok, out = vplib.cargo_build("debug", bins=["cmp"])
     if not ok:
         v.tie_failure("harness build failed: " + out[-400:])
     okm, outm = vplib.ocaml_build("cmp") if os.path.exists(vplib.OCAML_BUILD + "/cmp_model.ml") else (False, "no extracted model")
@@ -419,7 +423,7 @@ def replay(obj):
     if not cases:
         print("replay names a broken tie, not an input:", obj.get("no_longer_checks"))
         return run("quick", obj.get("seed", 0))
-    vplib.cargo_build("debug")
+    vplib.cargo_build("debug", bins=["cmp"])
     extra = []
     for c in cases:
         a, b = split_case(c)
